@@ -56,10 +56,9 @@ def main(chk):
     for i, u in enumerate(small):
         rows = max(len(x['rows']) for x in u['env'].values())
         blocks = max(2, target // rows)
-        big = variants.replicate_unit(u, blocks)
         for ci, e in enumerate(cfgs if not quick else cfgs[1:]):
-            v = dict(big)
-            v.update({'id': 'big%d.c%d' % (i, ci), 'osenv': e, 'nopack': True})
+            v = dict(u)
+            v.update({'id': 'big%d.c%d' % (i, ci), 'osenv': e, 'nopack': True, 'replicate': blocks})
             rep_units.append(v)
             rep_meta.append((u, blocks, e))
     robs = k2.pmap('harness.variants:run_replicated', rep_units, 4)
